@@ -111,6 +111,8 @@ pub struct BuildOut {
     pub verify_failures: Vec<String>,
     pub roundtrip_failures: Vec<String>,
     pub roundtrip_stages_checked: usize,
+    #[serde(default)]
+    pub roundtrip_notes: Vec<String>,
     pub diagnostics: Vec<Diag>,
     pub warnings: Vec<Diag>,
     pub millis: u64,
@@ -267,12 +269,10 @@ impl Worker {
             outs.push(self.build_one(&dir, spec));
         }
         if req.existing_dir.is_none() {
-            for release in [false, true] {
-                let slot = if release { &mut self.release } else { &mut self.debug };
-                if let Some(c) = slot.as_mut() {
-                    c.clear_member(&dir);
-                }
-            }
+            // NOTE: no `engines.clear_program` here. Clearing a member's program from engines that
+            // keep std's typed namespace alive leaves stale monomorphised std functions behind
+            // (observed: "Store value and pointer type mismatch" ICEs in later packages), which
+            // Mode A never sees. Memory is bounded by recycling workers instead (Pool.recycle_after).
             let _ = std::fs::remove_dir_all(&dir);
         }
         self.served += 1;
@@ -294,6 +294,7 @@ impl Worker {
         let verify_failures: Rc<RefCell<Vec<String>>> = Rc::new(RefCell::new(vec![]));
         let rt_failures: Rc<RefCell<Vec<String>>> = Rc::new(RefCell::new(vec![]));
         let rt_checked: Rc<RefCell<usize>> = Rc::new(RefCell::new(0));
+        let rt_notes: Rc<RefCell<Vec<String>>> = Rc::new(RefCell::new(vec![]));
 
         let mut variant = Variant {
             skip_asm_opt: spec.skip_asm_opt,
@@ -310,6 +311,7 @@ impl Worker {
             let vf = verify_failures.clone();
             let rf = rt_failures.clone();
             let rc = rt_checked.clone();
+            let rn = rt_notes.clone();
             let verify_each = spec.verify_each;
             let stages = spec.roundtrip_stages.clone();
             let substitute = spec.roundtrip_substitute;
@@ -347,7 +349,10 @@ impl Worker {
                 if stages.contains(&this_stage) || stages.contains(&usize::MAX) {
                     *rc.borrow_mut() += 1;
                     match crate::irtext::roundtrip(ir) {
-                        Ok(new_ir) => {
+                        Ok((new_ir, notes)) => {
+                            for n in notes {
+                                rn.borrow_mut().push(format!("stage {this_stage} after pass `{pass}`: {n}"));
+                            }
                             if substitute {
                                 *ir = new_ir;
                                 replaced = true;
@@ -475,6 +480,7 @@ impl Worker {
         out.verify_failures = verify_failures.borrow().clone();
         out.roundtrip_failures = rt_failures.borrow().clone();
         out.roundtrip_stages_checked = *rt_checked.borrow();
+        out.roundtrip_notes = rt_notes.borrow().clone();
         out.millis = t0.elapsed().as_millis() as u64;
         out
     }
